@@ -10,7 +10,7 @@ META = dict(
            "called at most n times per sort, either execution loop needs at most |jobs|+1 rounds (+11 for the stall detector); exceeding a "
            "budget raises BudgetExceeded, which the harness reports as non-termination"],
     outside=["workflows with more than 3-6 nodes, more than two late assignments", "real wall-clock behaviour (the stall detector's sleeps are logical)"],
-    assumptions=["a budget overrun is a hang: the budgets are 10x the bound derived from the code; loops outside the budgeted functions are caught by a 15 s wall-clock watchdog per submission (a normal run takes < 10 s traced)"],
+    assumptions=["a budget overrun is a hang: the budgets are 10x the bound derived from the code; loops outside the budgeted functions are caught by a watchdog per submission: 25 s of CPU time of the process, backed by 200 s of wall time (a normal run takes < 10 s of CPU traced)"],
 )
 NS = 4
 
